@@ -1,6 +1,6 @@
 ------------------------------ MODULE FrameMC ------------------------------
 EXTENDS Frame
-CoreSizesB == {24, 25, CoreMtu - 1, CoreMtu}
-OOBLensB == {0, 1, OOBMax - 1, OOBMax, OOBMax + 1}
+CoreSizesB(m) == {24, 25, m - 1, m}
+OOBLensB(m) == {0, 1, m - 1, m, m + 1}
 InputProps == IntegrityGuards /\ OOBNeverEntersFecOrKcp /\ SessionOnlyForNewConversation /\ ForeignConvNeverMerged
 =============================================================================
